@@ -14,7 +14,9 @@ RULE = ("generate -> execute -> validate. Polygons come from two TLC-generated p
         "triangle inside (centroid x3 + no polygon edge meets the open triangle), areas add up; unconstrained triangles tile the "
         "hull; monotone pieces: chains meet, vertices only, x-monotone, signed areas add up, witness membership, point location "
         "= Pos(P, c) # E; stitched result: same witnesses, same area, ring directions. distinct_nontrivial = distinct events with "
-        ">= 2 triangles / pieces. A third family is drawn at random by the harness (star-shaped shells with notches, 0 - 2 holes moved so "
+        ">= 2 triangles / pieces. Gen_MonoStress.tla adds ~6 000 valid members of a parametric family aimed at the case analysis of the "
+        "monotone sweep (a notch tip touched by a hole = a sweep point with two incoming and two outgoing edges, a helper vertex before "
+        "it, a split vertex after it; with / without contact and second hole), replayed under the symmetries of the square. A further family is drawn at random by the harness (star-shaped shells with notches, 0 - 2 holes moved so "
         "that they touch the shell or each other); whether such a candidate is a valid polygon is decided by the validator "
         "(ValidExact.tla, exact and conservative) - invalid candidates are skipped and counted, never judged.")
 ASSUME = ["monotone pieces (diagonals of arbitrary slope) are judged by necessary conditions (exact area + witness membership), triangles by an exact tiling criterion",
@@ -39,6 +41,17 @@ def check(tier, seed, t0):
     npool = vf.extract_tagged(res["out"], "POOL", pool)
     os.remove(res["out"])
     runs.append(res)
+    # the parametric family aimed at the case analysis of the monotone sweep (validity decided by ValidExact in TLC)
+    sres = vf.run_tlc("C10_monostress", "Gen_MonoStress", dict(constants={}), timeout=2400)
+    vf.tlc_ok_or_die(sres)
+    spool = os.path.join(sres["wd"], "pool.ndjson")
+    nstress = vf.extract_tagged(sres["out"], "POOL", spool)
+    os.remove(sres["out"])
+    runs.append(sres)
+    if nstress < 1000:
+        raise vf.ToolError("Gen_MonoStress produced only %d valid polygons" % nstress)
+    with open(pool, "a") as out, open(spool) as f:
+        out.write(f.read())
     gpool = os.path.join(vf.WORK, "C10_gpool.ndjson")
     ngen = 0
     with open(gpool, "w") as gout:
@@ -86,7 +99,7 @@ def check(tier, seed, t0):
     runs += results
     cov = {"states": sum(r["distinct"] for r in runs), "transitions": sum(r["generated"] for r in runs),
            "traces_validated_against_impl": n, "samples": samples, "evaluations": n, "distinct_nontrivial": len(nontriv),
-           "rule": RULE, "pool_sizes": {"octilinear": npool, "general": ngen}, "recorded_event_kinds": evk,
+           "rule": RULE, "pool_sizes": {"octilinear": npool, "general": ngen, "monotone_stress_family": nstress}, "recorded_event_kinds": evk,
            "events_outside_the_domain_skipped": sum(r.get("skipped", 0) for r in results),
            "checks_passed_by_kind": {"events_accepted": n - len(mism)}, "checks_failed_by_kind": failc, "tlc_runs": vf.tlc_summary(runs)}
     vf.finish("C10", tier, seed, "model_checking", cov, ASSUME, t0, mism)
